@@ -79,7 +79,17 @@ package analysis
 // list is looked up - the "a = a or 0" / "if not a" suppressions of the diagnostic passes must not hide
 // occurrences from find-references and rename - and then reaches the matcher exactly once.
 //@ func (*Analysis).findGlobalVar
-//@   props C06 C11
+//@   props C06 C11 C07
+// C07, diagnostic passes (2 = project, 3 = workspace): "undefined" reports are made only there; a read that runs when the
+// chunk is loaded (function level 0, in whatever block) is judged against the definitions made so far and the load-order
+// check; only reads inside function bodies may be satisfied silently by the whole first-pass table of the file.
+//@   at call InsertError#* before assert[C07,undefined-reports-only-in-the-diagnostic-passes] (arg1 == common.CheckErrorNoDefine || arg1 == common.CheckErrorCycleDefine)
+//@        && (a.checkTerm == results.CheckTermSecond || a.checkTerm == results.CheckTermThird)
+//@   at call FindGlobalVarInfo#2 before assert[C07,project-pass-whole-file-lookup-only-inside-functions] a.checkTerm == results.CheckTermSecond && fi.FuncLv != 0
+//@   at call FindGlobalVarInfo#5 before assert[C07,workspace-pass-whole-file-lookup-only-inside-functions] a.checkTerm == results.CheckTermThird && fi.FuncLv != 0
+//@   at call FindGlobalVarInfo#0 before assert[C07,project-pass-load-time-read-uses-definitions-so-far] a.checkTerm == results.CheckTermSecond && fi.FuncLv == 0 && arg0 == a.curResult
+//@   at call FindGlobalVarInfo#3 before assert[C07,workspace-pass-load-time-read-uses-definitions-so-far] a.checkTerm == results.CheckTermThird && fi.FuncLv == 0 && arg0 == a.curResult
+//@   at call FindThirdGlobalGInfo#0 before assert[C07,workspace-table-consulted-last] a.checkTerm == results.CheckTermThird && streq(arg2, strName)
 //@   ensures[C06,C11,reference-pass-use-passes-the-filters] a.checkTerm == results.CheckTermFour
 //@        && !IsIgnoreNameVar(old(common.GConfig), strName) && !IsIgnoreFileDefineVar(old(common.GConfig), old(a.curResult.Name), strName)
 //@        ==> hits("getFirstFileResult#0") == 1
@@ -87,14 +97,15 @@ package analysis
 //@        ==> hits("MatchVarInfo#0") + hits("FindProjectGlobal#0") == 1
 //@ end
 
-// ---- C07 (and C05 (D)): names are bound in the order Lua brings them into scope ----
+// ---- C07, C06/C11 (and C05 (D)): names are bound in the order Lua brings them into scope ----
+// (the reference pass of find-references / rename binds every use through this same traversal)
 // Lookups during the traversal see exactly the locals added so far, so the order of AddLocVar relative to
 // the analysis of sub-expressions IS the binding rule. Stated with ghost call-site counters.
 
 // numeric for: the three header expressions are analysed before the control variable exists; the body
 // is analysed with it bound, in the loop's own scope.
 //@ func (*Analysis).cgForNumStat
-//@   props C07 C05
+//@   props C07 C05 C06 C11
 //@   at call AddLocVar#0 before assert[header-analysed-before-control-variable-is-bound] hits("cgExp#0") == 1 && hits("cgExp#1") == 1 && hits("cgExp#2") == 1
 //@   at call AddLocVar#0 before assert[control-variable-goes-into-the-loop-scope] arg0 == subScope && streq(arg2, node.VarName) && arg5 == node.VarLoc
 //@   at call cgBlock#0 before assert[body-sees-the-control-variable] hits("AddLocVar#0") == 1 && arg1 == node.Block && locVar.IsUse
@@ -102,7 +113,7 @@ package analysis
 
 // generic for: every iterator expression is analysed before any control variable exists.
 //@ func (*Analysis).cgForInStat
-//@   props C07 C05
+//@   props C07 C05 C06 C11
 //@   at call AddLocVar#0 before assert[iterator-expressions-analysed-before-variables-are-bound] hits("cgExp#0") == len(node.ExpList)
 //@   at call AddLocVar#0 before assert[control-variables-go-into-the-loop-scope] arg0 == subScope && streq(arg2, node.NameList[index])
 //@   at call cgBlock#0 before assert[body-sees-all-control-variables] hits("AddLocVar#0") == len(node.NameList)
@@ -112,7 +123,7 @@ package analysis
 
 // local a, b = e1, e2: every initialiser is analysed before any of the names is bound.
 //@ func (*Analysis).cgLocalVarDeclStat
-//@   props C07 C05
+//@   props C07 C05 C06 C11
 //@   at call AddLocVar#* before assert[initialisers-analysed-before-any-name-is-bound] hits("cgExp#0") >= len(node.ExpList) || hits("cgExp#0") > len(node.NameList)
 //@   at call AddLocVar#0 before assert[name-bound-at-its-own-location-in-the-current-scope] arg0 == scope && streq(arg2, node.NameList[i]) && arg5 == node.VarLocList[i]
 //@   loop range:node.ExpList#0 invariant hits("cgExp#0") == rangeindex + 1
@@ -120,13 +131,13 @@ package analysis
 
 // local function f: f is bound before its body is analysed (recursion sees it).
 //@ func (*Analysis).cgLocalFuncDefStat
-//@   props C07 C05
+//@   props C07 C05 C06 C11
 //@   at call cgFuncDefExp#0 before assert[local-function-visible-in-its-own-body] hits("AddLocVar#0") == 1
 //@ end
 
 // repeat ... until e: the condition is analysed inside the block's scope (locals of the body are visible in it).
 //@ func (*Analysis).cgRepeatStat
-//@   props C07 C05
+//@   props C07 C05 C06 C11
 //@   at call cgExp#0 before assert[until-condition-analysed-in-the-body-scope] hits("cgBlock#0") == 1 && hits("exitScope#0") == 0
 //@ end
 
